@@ -93,6 +93,11 @@ def gen_history(rnd, length):
                 ops.append(["set", name, [], rnd.choice(["none", "list"])])
             elif k < 0.2:
                 ops.append(["set", name, gen_vals(rnd, ty, 1), "scalar"])
+            elif k < 0.27:
+                # extend_values with a bare value: one value is appended (a text is ONE value, not its characters)
+                v1 = gen_vals(rnd, ty, 1)
+                if not (v1[0][0] == "str" and v1[0][1] == 0):        # (the empty text as a bare value: the recorded finding's domain)
+                    ops.append(["extend", name, v1, "scalar"])
             elif k < 0.3 and ty != "str":
                 vs = [val(rnd, ty, np_ok=False) for _ in range(rnd.randint(1, 4))]
                 ops.append(["set", name, vs, "nparray"])
